@@ -39,6 +39,10 @@ structure Config where
   cbits : Nat
   sbits : Nat
   auth : Auth
+  /-- a second, secured policy (index) the server enables besides `pol`, in mode
+      SignAndEncrypt; used for the rows "username login over the None endpoint",
+      where the None endpoint advertises the username token under that policy -/
+  extra : Option Nat := none
   deriving Repr, DecidableEq
 
 def policyInfo (i : Nat) : Option Gen.InteropPolicy := Gen.interopPolicies[i]?
@@ -48,7 +52,7 @@ def polIndex (name : String) : Option Nat := Gen.interopPolicies.findIdx? (·.na
 def polIsNone (i : Nat) : Bool := ((policyInfo i).map (·.isNone)).getD false
 
 def Config.show (c : Config) : String :=
-  s!"{polName c.pol},{c.mode},{c.cbits},{c.sbits},{c.auth.name}"
+  s!"{polName c.pol},{c.mode},{c.cbits},{c.sbits},{c.auth.name},{match c.extra with | none => "-" | some j => polName j}"
 
 /-! ### The finite table -/
 
@@ -68,19 +72,31 @@ def enumFrom {α} : Nat → List α → List (Nat × α)
   | i, x :: xs => (i, x) :: enumFrom (i + 1) xs
 
 /-- every supported policy × its modes × every committed key size Part 7 allows on
-    each side × the user token types that need no external credentials
-    (policy None: anonymous only — the server advertises no username token
-    without a secured policy; with and without certificates configured) -/
+    each side × the user token types that need no external credentials.
+    Policy None: anonymous with and without certificates configured (a server
+    that enables only None advertises no username token), and username over
+    the None endpoint of a server that also enables a secured policy `q`, for
+    every `q` and every server key size `q` allows (the password is encrypted
+    with the server certificate under `q`), without and with a client key -/
 def configTable : List Config :=
   (enumFrom 0 Gen.interopPolicies).flatMap fun (i, p) =>
     let range := Spec.keyBits p.name
     p.modes.flatMap fun m =>
       match range with
-      | none => [⟨i, m, 0, 0, .anonymous⟩, ⟨i, m, 2048, 2048, .anonymous⟩]
+      | none =>
+        [⟨i, m, 0, 0, .anonymous, none⟩, ⟨i, m, 2048, 2048, .anonymous, none⟩] ++
+        -- a server that also enables a secured policy `q` advertises `username_q` on this endpoint
+        (enumFrom 0 Gen.interopPolicies).flatMap fun (j, q) =>
+          match Spec.keyBits q.name with
+          | none => []
+          | some rq => keySizes.flatMap fun sb =>
+              if inRange rq sb then
+                [⟨i, m, 0, sb, .username, some j⟩, ⟨i, m, 2048, sb, .username, some j⟩]
+              else []
       | some r =>
         keySizes.flatMap fun cb => keySizes.flatMap fun sb =>
           if inRange r cb && inRange r sb then
-            [⟨i, m, cb, sb, .anonymous⟩, ⟨i, m, cb, sb, .username⟩]
+            [⟨i, m, cb, sb, .anonymous, none⟩, ⟨i, m, cb, sb, .username, none⟩]
           else []
 
 /-! ### Server: advertised endpoints (`initEndpoints`) -/
@@ -235,11 +251,13 @@ def fitsOne (s : Option Secured) : Bool :=
   | none => false
   | some x => decide (x.sizeField = x.chunkLen) && decide (x.chunkLen ≤ (Gen.defaultReceiveBufSize : Int))
 
-/-- a server that enables exactly (policy, mode) with the anonymous and the
-    username token type; a client that selects the advertised endpoint -/
+/-- a server that enables (policy, mode) — plus `extra` in SignAndEncrypt — with
+    the anonymous and the username token type; a client that selects the
+    advertised (policy, mode) endpoint -/
 def connect (c : Config) : Stage :=
   if (policyInfo c.pol).isNone ∨ (findRow c.pol).isNone then .unsupportedPolicy else
-  let eps := serverEndpoints [(c.pol, c.mode)] [.anonymous, .username]
+  let enabled := (c.pol, c.mode) :: (match c.extra with | none => [] | some j => [(j, 3)])
+  let eps := serverEndpoints enabled [.anonymous, .username]
   match selectEndpoint eps c.pol c.mode with
   | none => .noEndpoint
   | some ep =>
